@@ -25,6 +25,7 @@ VNCases   == {[kind |-> "vn", k |-> s[1], p |-> s[2], fk |-> 0, fp |-> 0, ok |->
 PoolCases == {[kind |-> "maxnormpool", k |-> s[1], p |-> s[2], fk |-> 0, fp |-> 0, ok |-> 0, mode |-> "", useNorm |-> u] : s \in KP, u \in BOOLEAN}
 BlockCases == {[kind |-> b, k |-> s[1], p |-> s[2], fk |-> fk, fp |-> fp, ok |-> s[1], mode |-> m, useNorm |-> TRUE] :
                  b \in {"block-post", "block-pre"}, s \in {t \in KP : t[1] <= 1}, fk \in 0..MaxFK, fp \in 0..1, m \in Modes}
+UNetCases == {[kind |-> "unet-level", k |-> s[1], p |-> s[2], fk |-> 0, fp |-> 0, ok |-> s[1], mode |-> m, useNorm |-> TRUE] : s \in KP, m \in Modes}
 DevCases  == {[kind |-> "deviations", k |-> s[1], p |-> s[2], fk |-> 0, fp |-> 0, ok |-> 0, mode |-> "", useNorm |-> TRUE] : s \in KP}
 
 Admissible(c) == c.kind \in {"conv", "block-post", "block-pre"} => ((c.k + c.fk - c.ok) % 2 = 0 /\ c.ok <= c.k + c.fk)
@@ -32,7 +33,7 @@ Admissible(c) == c.kind \in {"conv", "block-post", "block-pre"} => ((c.k + c.fk 
 (* models with use_norm = TRUE; it is equivariant exactly for true scalars                                              *)
 PoolDeclared(c) == c.useNorm \/ (c.k = 0 /\ c.p = 0)
 
-OutKP(c) == IF c.kind \in {"conv", "block-post", "block-pre"} THEN <<c.ok, Px(c.p, c.fp)>> ELSE <<c.k, c.p>>
+OutKP(c) == IF c.kind \in {"conv", "block-post", "block-pre", "unet-level"} THEN <<c.ok, Px(c.p, c.fp)>> ELSE <<c.k, c.p>>
 
 Graph(c) ==
   LET G0 == InputG(c.k, c.p) IN
@@ -51,11 +52,20 @@ Graph(c) ==
              d == VNG(b.g, b.out, c.k, c.p)
              a == ConvContractG(d.g, d.out, c.k, c.p, c.fk, c.fp, c.ok, c.mode)
          IN IF OutKP(c) = <<c.k, c.p>> THEN ResidualG(a.g, 1, a.out) ELSE a
+    [] c.kind = "unet-level"  ->      \* one level of the U-Net: block, norm-based pooling, block, up-sampling convolution (image dilation:
+         LET a  == ConvContractG(G0, 1, c.k, c.p, 0, 0, c.k, c.mode)            \* the same convc rule), skip concatenation, decoding convolution
+             b  == VNG(a.g, a.out, c.k, c.p)
+             d  == MaxNormPoolG(b.g, b.out, c.k, c.p, TRUE)
+             e  == ConvContractG(d.g, d.out, c.k, c.p, 0, 0, c.k, c.mode)
+             e2 == VNG(e.g, e.out, c.k, c.p)
+             u  == ConvContractG(e2.g, e2.out, c.k, c.p, 0, 0, c.k, c.mode)
+             cc == [g |-> Ext(u.g, <<N0("concat", <<b.out, u.out>>)>>), out |-> Len(u.g) + 1]
+         IN ConvContractG(cc.g, cc.out, c.k, c.p, 0, 0, c.k, c.mode)
     [] OTHER -> [g |-> G0, out |-> 1]
 
 Init == st = [kind |-> "init"]
-PickKind == st.kind = "init" /\ \E kd \in {"conv", "groupnorm", "vn", "maxnormpool", "block-post", "block-pre", "deviations"} : st' = [kind |-> "pick", what |-> kd]
-PickCase == st.kind = "pick" /\ \E c \in (ConvCases \cup NormCases \cup VNCases \cup PoolCases \cup BlockCases \cup DevCases) :
+PickKind == st.kind = "init" /\ \E kd \in {"conv", "groupnorm", "vn", "maxnormpool", "block-post", "block-pre", "unet-level", "deviations"} : st' = [kind |-> "pick", what |-> kd]
+PickCase == st.kind = "pick" /\ \E c \in (ConvCases \cup NormCases \cup VNCases \cup PoolCases \cup BlockCases \cup UNetCases \cup DevCases) :
                 c.kind = st.what /\ Admissible(c) /\ st' = [kind |-> "case", c |-> c]
 Next == PickKind \/ PickCase
 
